@@ -1059,15 +1059,15 @@ func cancelBeforeReturnNotForReaders(c *core.Ctx, rule string) {
 			cancels := false
 			for _, cj := range facts.CallsIn(fn) {
 				if facts.Resolve(cj.Common().Value) == cv {
-					if _, isDefer := cj.(*ssa.Defer); !isDefer {
-						all := true
-						for _, r := range returnsOf(fn) {
-							if !facts.Dominates(cj, r) {
-								all = false
-							}
+					// a plain call before every return, or a defer registered before every
+					// return: either way the context is dead when the caller gets the answer
+					all := true
+					for _, r := range returnsOf(fn) {
+						if !facts.Dominates(cj, r) {
+							all = false
 						}
-						cancels = cancels || all
 					}
+					cancels = cancels || all
 				}
 			}
 			if !cancels {
